@@ -64,7 +64,23 @@ CHECKS = {"C10": c10, "C09": c09, "C11": c11,
           "C08": hist("C08", "C08", 3000, 150000, 90, 1500, "DESIGN.md §4.1 C08"),
           "C06": hist("C06", "C06", 1500, 100000, 110, 1800, "DESIGN.md §4.1 C06"),
           "C16": hist("C16", "C16", 5000, 120000, 90, 1200, "DESIGN.md §4.1 C16", level="fault_enumeration"),
-          "C07": hist("C07", "C07", 2000, 200000, 110, 1800, "DESIGN.md §4.1 C07", c07=True)}
+          "C07": None}
+
+
+def c07(a):
+    quick = a.tier == "quick"
+    cat = 48 if quick else 512
+    # schedule slice: the thread harnesses under ASan; any death counts, whichever phase
+    parts = [T.Part("blocks_sim", "asan", 400 if quick else 40000, cat), T.Part("pool_sim", "asan", 2000 if quick else 200000)]
+    ex, tcov = T.run_thread_check("C07", a.tier, parts, 25 if quick else 400, "DESIGN.md §4.1 C07", ASSUME_THREADS, REAL_VS_STUB_THREADS,
+                                  det_sample=100, write_ev=False)
+    slim = {k: tcov[k] for k in ("evaluations", "distinct_nontrivial", "verdicts", "strategies", "faults_fired", "violation_classes", "known_findings_hit", "parts") if k in tcov}
+    runs = a.runs or (2000 if quick else 200000)
+    budget = a.budget or (100 if quick else 1800)
+    return H.run_history_check("C07", a.tier, "C07", runs, cat, budget, "DESIGN.md §4.1 C07", ASSUME_HIST, c07=True, extra_cov=slim, extra_exit=ex)
+
+
+CHECKS["C07"] = c07
 
 
 def setup(a):
